@@ -1,5 +1,4 @@
 import RlibModel.Lemmas.Gcd
-import RlibModel.Lemmas.GcdSrc
 /-!
 # C11 — gcd, lcm, linear Diophantine solver and CRT return the number-theoretic answer
 
@@ -181,80 +180,5 @@ example : crt 2 3 3 5 = .ok (some 8) := by
   · rw [h, crt_unique 2 3 3 5 x 8 (by decide) (by decide) (by decide) (by decide) h (by decide) (by decide) (by decide)]
 example : crtT IntTy.i64 (2 ^ 20 - 2) (2 ^ 20 - 1) 5 (2 ^ 20) = crt (2 ^ 20 - 2) (2 ^ 20 - 1) 5 (2 ^ 20) :=
   crt_nowrap _ _ _ _ (by decide) (by decide) (by decide) (by decide)
-
-/-! ## The model regenerated from the source text equals the hand-written model
-
-`GcdSrc.*` take the recursion budget `fuel` as first argument (loops and recursion are structural on it; running out
-is `.error .fuel`).  The hypotheses give an explicit sufficient budget; with it the budget never runs out. -/
-
-/-- Source-derived `gcd` = model `gcd` (never a panic), for every budget `≥ |b| + 1`. -/
-theorem src_gcd_eq_model (fuel : Nat) (a b : Int) (h : b.natAbs + 1 ≤ fuel) :
-    Rlib.GcdSrc.gcd fuel a b = .ok (gcd a b) := Rlib.GcdSrc.gcd_eq_model fuel a b h
-
-/-- Source-derived `lcm` = model `lcm` — the value, or the same `divzero` panic for `(0, 0)`. -/
-theorem src_lcm_eq_model (fuel : Nat) (a b : Int) (h : b.natAbs + 1 ≤ fuel) :
-    Rlib.GcdSrc.lcm fuel a b = lcm a b := Rlib.GcdSrc.lcm_eq_model fuel a b h
-
-/-- Source-derived `egcd` = model `egcd` (pair, `none`, or the same panic), for every budget `≥ |a| + 1`. -/
-theorem src_egcd_eq_model (fuel : Nat) (a b c : Int) (h : a.natAbs + 1 ≤ fuel) :
-    Rlib.GcdSrc.egcd fuel a b c = egcd a b c := Rlib.GcdSrc.egcd_eq_model fuel a b c h
-
-/-- Source-derived `crt` = model `crt`, for every budget `≥ max(|m1|, |m2|) + 1`. -/
-theorem src_crt_eq_model (fuel : Nat) (a1 m1 a2 m2 : Int) (h1 : m1.natAbs + 1 ≤ fuel) (h2 : m2.natAbs + 1 ≤ fuel) :
-    Rlib.GcdSrc.crt fuel a1 m1 a2 m2 = crt a1 m1 a2 m2 := Rlib.GcdSrc.crt_eq_model fuel a1 m1 a2 m2 h1 h2
-
-/-- The property, stated directly about the definitions regenerated from the source: `gcd` … -/
-theorem src_gcd_spec (fuel : Nat) (a b : Int) (h : b.natAbs + 1 ≤ fuel) :
-    Rlib.GcdSrc.gcd fuel a b = .ok (Int.gcd a b : Int) := by
-  rw [src_gcd_eq_model fuel a b h, gcd_spec]
-
-/-- … `lcm` … -/
-theorem src_lcm_spec (fuel : Nat) (a b : Int) (h : b.natAbs + 1 ≤ fuel) :
-    Rlib.GcdSrc.lcm fuel a b = if a = 0 ∧ b = 0 then .error .divzero else .ok (Int.lcm a b : Int) := by
-  rw [src_lcm_eq_model fuel a b h, lcm_spec]
-
-/-- … the linear solver: never an error for `(a, b) ≠ (0, 0)`, `none` exactly when `gcd(a,b) ∤ c`, and a returned pair
-    solves the equation … -/
-theorem src_egcd_spec (fuel : Nat) (a b c : Int) (h : a.natAbs + 1 ≤ fuel) (hab : ¬(a = 0 ∧ b = 0)) :
-    ∃ r, Rlib.GcdSrc.egcd fuel a b c = .ok r ∧ (r = none ↔ ¬ (Int.gcd a b : Int) ∣ c) ∧
-      ∀ x y, r = some (x, y) → a * x + b * y = c := by
-  obtain ⟨r, hr, hn⟩ := egcd_complete a b c hab
-  refine ⟨r, by rw [src_egcd_eq_model fuel a b c h, hr], hn, ?_⟩
-  intro x y hxy
-  subst hxy
-  exact egcd_sound a b c x y hr
-
-/-- … and the two-congruence solver on its domain. -/
-theorem src_crt_spec (fuel : Nat) (a1 m1 a2 m2 : Int) (h1 : m1.natAbs + 1 ≤ fuel) (h2 : m2.natAbs + 1 ≤ fuel)
-    (hm1 : 1 ≤ m1) (hm2 : 1 ≤ m2) (ha1 : 0 ≤ a1 ∧ a1 < m1) (ha2 : 0 ≤ a2 ∧ a2 < m2) :
-    (¬ (Int.gcd m1 m2 : Int) ∣ a2 - a1 ∧ Rlib.GcdSrc.crt fuel a1 m1 a2 m2 = .ok none) ∨
-    ((Int.gcd m1 m2 : Int) ∣ a2 - a1 ∧ ∃ x, Rlib.GcdSrc.crt fuel a1 m1 a2 m2 = .ok (some x) ∧ 0 ≤ x ∧
-      x < (Int.lcm m1 m2 : Int) ∧ m1 ∣ x - a1 ∧ m2 ∣ x - a2) := by
-  rw [src_crt_eq_model fuel a1 m1 a2 m2 h1 h2]
-  exact crt_spec a1 m1 a2 m2 hm1 hm2 ha1 ha2
-
--- non-vacuity: the generated definitions evaluated by the kernel on concrete inputs (negative operands, a panic,
--- the budget at its stated minimum and one below it)
-example : Rlib.GcdSrc.gcd 19 (-12) 18 = .ok 6 := by decide
-example : Rlib.GcdSrc.gcd 19 (-12) 18 = .ok (gcd (-12) 18) := src_gcd_eq_model 19 (-12) 18 (by decide)
-example : Rlib.GcdSrc.gcd 1 5 0 = .ok 5 := by decide
-example : Rlib.GcdSrc.gcd 0 5 0 = .error .fuel := by decide          -- below the bound the budget does run out
-example : Rlib.GcdSrc.lcm 7 (-4) 6 = .ok 12 := by decide
-example : Rlib.GcdSrc.lcm 1 0 0 = .error .divzero := by decide
-example : Rlib.GcdSrc.lcm 1 0 0 = lcm 0 0 := src_lcm_eq_model 1 0 0 (by decide)
-example : Rlib.GcdSrc.egcd 5 4 6 2 = .ok (some (-1, 1)) := by decide
-example : Rlib.GcdSrc.egcd 7 (-6) 4 9 = .ok none := by decide
-example : Rlib.GcdSrc.egcd 1 0 0 3 = .error .divzero := by decide
-example : Rlib.GcdSrc.egcd 2 4 6 2 = .error .fuel := by decide          -- too small a budget does run out
-example : Rlib.GcdSrc.crt 6 2 3 3 5 = .ok (some 8) := by decide
-example : Rlib.GcdSrc.crt 7 1 4 2 6 = .ok none := by decide
-example : ∃ x, Rlib.GcdSrc.crt 6 2 3 3 5 = .ok (some x) ∧ 0 ≤ x ∧ x < 15 ∧ (3 : Int) ∣ x - 2 ∧ (5 : Int) ∣ x - 3 := by
-  rcases src_crt_spec 6 2 3 3 5 (by decide) (by decide) (by decide) (by decide) (by decide) (by decide)
-    with ⟨hn, _⟩ | ⟨_, x, h, h0, hl, d1, d2⟩
-  · exact absurd (by decide) hn
-  · exact ⟨x, h, h0, hl, d1, d2⟩
-example : ∃ r, Rlib.GcdSrc.egcd 7 (-6) 4 10 = .ok r ∧ r ≠ none := by
-  obtain ⟨r, h, hn, _⟩ := src_egcd_spec 7 (-6) 4 10 (by decide) (by decide)
-  exact ⟨r, h, by rw [Ne, hn]; decide⟩
 
 end Rlib.C11
